@@ -50,7 +50,10 @@ CLAIMED["C20"] = {
     "text": "Theorems for all signatures: main passes every parameter exactly its parsed value once, positional-only ones positionally in order "
             "(C20_main_partial; domain includes bool parameters since the regenerated fact C20_nothing_bogus_forwarded holds); config_for fields = "
             "non-ignored parameters with defaults preserved; Partial.__call__ = field values updated by call-site kwargs; class cache for hashable "
-            "arguments. Mutable defaults, positional-only fields of config_for and unhashable ignore_args are refuted with witnesses (known findings).",
+            "arguments. Composed with the argparse engine (C20_main_positionals_in_signature_order): over the actions main registers in the stably "
+            "partitioned field order, the i-th plain token is what the callable receives as its i-th positional-only argument in signature order, "
+            "too few tokens end with exit 2 before the call. Dataclass-instance defaults, positional-only fields of config_for and unhashable "
+            "ignore_args are refuted with witnesses (known findings).",
     "note": COMMON_NOTE + "inspect.signature, lru_cache, CPython call binding and the 'equivalent dataclass parse' are modelled.",
     "technique": "Coq proof over regenerated facts + vm_compute model/impl correspondence",
 }
